@@ -1,6 +1,6 @@
 """C01 compiled SQL returns the relation the pipeline denotes."""
 import json, random
-import anchortrace, preptrace
+import anchortrace, preptrace, grouptake
 import vlib, relgen, relcheck
 
 MANIFEST = dict(
@@ -91,7 +91,7 @@ def run(ctx):
                            "distinct_only_for_first_row_of_whole_frame", "distinct_on_only_for_one_row", "group_take_first_over_all_columns_is_distinct",
                            "distinct_needs_all_columns_counterexample", "distinct_judged_on_final_frame_counterexample", "row_number_filter_is_positional_take",
                            "range_filter_means_the_range", "distinct_leaves_plain_pipelines", "union_eliminates_append", "except_rewrite_guard",
-                           "anti_join_is_except_on_null_free_rows", "except_rewrite_null_counterexample"])
+                           "anti_join_is_except_on_null_free_rows", "except_rewrite_null_counterexample", "group_take_one_keys_unique"])
     ctx.rule = ("random well-scoped programs of the relational core (from/select/derive/filter/sort/take/aggregate/group/join/append, "
                 "let tables, 1-7 transforms) with resolved positional form for the Lean reference semantics, x random database instances "
                 "(0-7 rows, NULLs, duplicates, empty tables); the real SQL is executed on SQLite and compared with Model.Rel.evalSrc as a "
@@ -137,6 +137,8 @@ def run(ctx):
     ctx.coverage_extra["constant_join_cases"] = len(cj)
     nbad += explore(ctx, "const-join", None, 0, SAFE, "sql.sqlite", cases=cj)
     nbad += explore(ctx, "const-join-generic", None, 0, SAFE, "sql.generic", cases=cj)
+    # `group K (take 1)` followed by row-wise transforms: the answer must be one of the admissible results (one row per group)
+    nbad += grouptake.run(ctx)
     nbad += explore(ctx, "safe", random.Random(20240924), 500 if quick else 3000, SAFE, "sql.sqlite")
     nbad += explore(ctx, "safe-generic", random.Random(20240925), 200 if quick else 1500, SAFE, "sql.generic")
     nbad += explore(ctx, "literals+functions", random.Random(20240926), 250 if quick else 2000, RICH, "sql.sqlite")
